@@ -13,6 +13,9 @@
 //	[4]                  cc.ResetConnectBackoff()                    obs [n, t1..tn, state]
 //	[5]                  drop the established connection             obs [n, t1..tn, state]
 //	[6]                  cc.Connect()                                obs [n, t1..tn, state]
+//	[7, h]               from now on a failing dial takes h ns to fail obs [0, state]
+//	                     (connection accepted, no server preface: the dialer blocks for h
+//	                     or until the connect deadline, whichever is first)
 //
 // t_i are the virtual times (ns since the start of the case) at which the dialer was
 // called during the op; state is cc.GetState() at quiescence.  Ops 2-6 are executed only
@@ -57,20 +60,39 @@ func vBackoffPacingOK(c grpcbackoff.Config, cfg []int64) bool {
 }
 
 type vBackoffPacer struct {
-	mu     sync.Mutex
-	start  time.Time
-	okmode bool
-	dials  []int64
-	conn   net.Conn
-	lis    *bufconn.Listener
+	mu       sync.Mutex
+	start    time.Time
+	okmode   bool
+	fdelay   time.Duration
+	inflight int
+	dials    []int64
+	conn     net.Conn
+	lis      *bufconn.Listener
 }
 
 func (p *vBackoffPacer) dial(ctx context.Context, _ string) (net.Conn, error) {
 	p.mu.Lock()
 	p.dials = append(p.dials, int64(time.Since(p.start)))
 	ok := p.okmode
+	fd := p.fdelay
+	p.inflight++
 	p.mu.Unlock()
+	defer func() {
+		p.mu.Lock()
+		p.inflight--
+		p.mu.Unlock()
+	}()
 	if !ok {
+		if fd > 0 {
+			// a slowly failing attempt: nothing is learnt before fd has passed or the
+			// connect deadline expires
+			tm := time.NewTimer(fd)
+			defer tm.Stop()
+			select {
+			case <-tm.C:
+			case <-ctx.Done():
+			}
+		}
 		return nil, errors.New("verif: dial refused")
 	}
 	c, err := p.lis.DialContext(ctx)
@@ -149,8 +171,21 @@ func vBackoffRun(c grpcbackoff.Config, cfg []int64, ops [][]int64, pacing bool) 
 			time.Sleep(time.Duration(op[1]))
 			obs = append(obs, pobs())
 		case len(op) == 1 && op[0] == 4:
-			cc.ResetConnectBackoff()
-			tags["reset"] = true
+			p.mu.Lock()
+			busy := p.inflight > 0
+			p.mu.Unlock()
+			if !busy { // skipped while a dial is in flight (as in the model)
+				cc.ResetConnectBackoff()
+				tags["reset"] = true
+			}
+			obs = append(obs, pobs())
+		case len(op) == 2 && op[0] == 7 && op[1] >= 0:
+			p.mu.Lock()
+			p.fdelay = time.Duration(op[1])
+			p.mu.Unlock()
+			if op[1] > 0 {
+				tags["slowfail"] = true
+			}
 			obs = append(obs, pobs())
 		case len(op) == 1 && op[0] == 5:
 			p.mu.Lock()
@@ -199,7 +234,7 @@ func vBackoffExec(cfg []int64, ops [][]int64) ([][]int64, bool, []string) {
 		obs, nd, tg = vBackoffRun(c, cfg, ops, false)
 	}
 	var tags []string
-	for _, k := range []string{"saturated", "negative", "reset", "drop"} {
+	for _, k := range []string{"saturated", "negative", "reset", "drop", "slowfail"} {
 		if tg[k] {
 			tags = append(tags, k)
 		}
@@ -281,6 +316,19 @@ func vBackoffGen(r *vRand, tier string, idx int) ([]int64, [][]int64) {
 		c := vBackoffFixed[idx]
 		return c[:], vBackoffPureOps(r, 40)
 	}
+	if idx == len(vBackoffFixed) || idx == len(vBackoffFixed)+1 {
+		// slowly failing connection attempts: the wait must be counted from the failure.
+		// 350ms-failures under a 500ms backoff, then failures that last until the connect
+		// deadline (max(MinConnectTimeout 1s, backoff)), a reset, a success, a drop
+		mult := 1.0
+		if idx > len(vBackoffFixed) {
+			mult = 1.6
+		}
+		cfg := []int64{500000000, vBackoffF(mult), 0, 20000000000}
+		ops := [][]int64{{7, 350000000}, {6}, {3, 400000000}, {3, 5000000000}, {7, 2500000000}, {3, 9000000000},
+			{4}, {3, 3000000000}, {7, 500000000}, {3, 6000000000}, {2, 1}, {3, 25000000000}, {5}, {2, 0}, {6}, {3, 4000000000}, {4}, {3, 2000000000}}
+		return cfg, ops
+	}
 	if idx%2 == 0 {
 		// pacing: deterministic strategy (Jitter = 0), one real ClientConn
 		base := r.PickI64(1e6, 1e7, 1e9, 1e6+r.I64n(1e10))
@@ -290,7 +338,7 @@ func vBackoffGen(r *vRand, tier string, idx int) ([]int64, [][]int64) {
 		ops := [][]int64{{6}}
 		n := 12 + r.Intn(20)
 		for i := 0; i < n; i++ {
-			switch r.Intn(12) {
+			switch r.Intn(14) {
 			case 0:
 				ops = append(ops, []int64{2, int64(r.Intn(2))})
 			case 1:
@@ -305,6 +353,10 @@ func vBackoffGen(r *vRand, tier string, idx int) ([]int64, [][]int64) {
 				ops = append(ops, []int64{2, 1}, []int64{3, r.I64n(20 * base)}, []int64{5}, []int64{2, 0}, []int64{6})
 			case 6:
 				ops = append(ops, []int64{3, r.PickI64(base-1, base, base+1, 0, 1)})
+			case 7, 8:
+				// failing dials take a while: a fraction of the backoff, exactly the base
+				// delay, longer than MinConnectTimeout (1s) / the backoff, or back to instant
+				ops = append(ops, []int64{7, r.PickI64(0, base/2, base, base+1, 3*base, 1+r.I64n(4*base), 999999999, 1000000000, 2500000000)})
 			default:
 				ops = append(ops, []int64{3, r.I64n(r.PickI64(2*base, 8*base, 60*base))})
 			}
